@@ -80,7 +80,7 @@ package godi
 //@   at after if#1 : ghost won := true
 //@   at after assign disposables#1 : ghost snap := disposables
 //@   at before call s.childrenMu.Unlock#1 : ghost kids := children
-//@   ensures[C12] loser_is_noop: !won ==> result == nil && ncalls("Disposable.Close") == 0 && ncalls("scope.Close") == 0 && ncalls("field:scope.cancel") == 0
+//@   ensures[C12] loser_is_noop: !won ==> result == nil && ncalls("closeDisposable") == 0 && ncalls("scope.Close") == 0 && ncalls("field:scope.cancel") == 0
 //@   ensures[C12,C13] closed_flag_set: won ==> callret("atomic.CAS:disposed", 0, 0)
 //@   ensures[C10,C13,C14] winner_runs_every_step: won ==> ncalls("scope.disposablesMu.Lock") == 1 && ncalls("scope.instancesMu.Lock") == 1
 //@        && ncalls("scope.childrenMu.Lock") == 1 + ite(s.parentScope != nil, 1, 0) && ncalls("provider.scopesMu.Lock") == ite(s.rootProvider != nil, 1, 0)
@@ -88,14 +88,14 @@ package godi
 //@        && (s.parentScope != nil ==> callarg("scope.childrenMu.Lock", 1, 0) == s.parentScope) && (s.rootProvider != nil ==> callarg("provider.scopesMu.Lock", 0, 0) == s.rootProvider)
 //@   ensures[C14] cancel_called: won && s.cancel != nil ==> ncalls("field:scope.cancel") == 1 && callarg("field:scope.cancel", 0, 0) == s.cancel
 //@   ensures[C13,C10] cascade: won ==> ncalls("scope.Close") == len(kids) && (forall i int :: 0 <= i && i < len(kids) ==> callarg("scope.Close", i, 0) == kids[i])
-//@   ensures[C10,C12] every_disposable_closed_once: won ==> ncalls("Disposable.Close") == len(snap)
-//@        && (forall i int :: 0 <= i && i < len(snap) ==> callarg("Disposable.Close", i, 0) == snap[len(snap) - 1 - i])
+//@   ensures[C10,C12] every_disposable_closed_once: won ==> ncalls("closeDisposable") == len(snap)
+//@        && (forall i int :: 0 <= i && i < len(snap) ==> callarg("closeDisposable", i, 0) == snap[len(snap) - 1 - i])
 //@   ensures[C11] reverse_order: won ==> (forall i int, j int :: 0 <= i && i < j && j < len(snap) ==>
-//@        calltime("Disposable.Close", len(snap) - 1 - j) < calltime("Disposable.Close", len(snap) - 1 - i))
-//@   ensures[C11] children_first: won ==> (forall i int, j int :: 0 <= i && i < ncalls("scope.Close") && 0 <= j && j < ncalls("Disposable.Close") ==>
-//@        calltime("scope.Close", i) < calltime("Disposable.Close", j))
+//@        calltime("closeDisposable", len(snap) - 1 - j) < calltime("closeDisposable", len(snap) - 1 - i))
+//@   ensures[C11] children_first: won ==> (forall i int, j int :: 0 <= i && i < ncalls("scope.Close") && 0 <= j && j < ncalls("closeDisposable") ==>
+//@        calltime("scope.Close", i) < calltime("closeDisposable", j))
 //@   ensures[C12] nil_iff_no_failure: won ==> ((result == nil) <==> ((forall i int :: 0 <= i && i < ncalls("scope.Close") ==> callret("scope.Close", i, 0) == nil)
-//@        && (forall i int :: 0 <= i && i < ncalls("Disposable.Close") ==> callret("Disposable.Close", i, 0) == nil)))
+//@        && (forall i int :: 0 <= i && i < ncalls("closeDisposable") ==> callret("closeDisposable", i, 0) == nil)))
 //@   ensures[C12,C15] error_is_disposal_error: result != nil ==> typeis(result, "*DisposalError") && as(result, "*DisposalError") != nil
 //@   at before call s.childrenMu.Unlock#1 : assert[C13,C14] children_detached: s.children == nil
 //@   at before assign s.children#1 : assert[C13] snapshot_complete: forall c *scope :: (c in s.children) ==> occursScope(c, children)
@@ -114,15 +114,15 @@ package godi
 //@     invariant errs_some: len(errs) == 0 ==> (forall i int :: 0 <= i && i < idx ==> callret("scope.Close", i, 0) == nil)
 //@   loop 3
 //@     invariant bounds: 0 - 1 <= i && i < len(disposables)
-//@     invariant called: ncalls("Disposable.Close") == len(disposables) - 1 - i
-//@        && (forall j int :: 0 <= j && j < ncalls("Disposable.Close") ==> callarg("Disposable.Close", j, 0) == disposables[len(disposables) - 1 - j])
-//@     invariant after_children: forall a int, b int :: 0 <= a && a < ncalls("scope.Close") && 0 <= b && b < ncalls("Disposable.Close") ==>
-//@        calltime("scope.Close", a) < calltime("Disposable.Close", b)
+//@     invariant called: ncalls("closeDisposable") == len(disposables) - 1 - i
+//@        && (forall j int :: 0 <= j && j < ncalls("closeDisposable") ==> callarg("closeDisposable", j, 0) == disposables[len(disposables) - 1 - j])
+//@     invariant after_children: forall a int, b int :: 0 <= a && a < ncalls("scope.Close") && 0 <= b && b < ncalls("closeDisposable") ==>
+//@        calltime("scope.Close", a) < calltime("closeDisposable", b)
 //@     invariant children_before_now: forall a int :: 0 <= a && a < ncalls("scope.Close") ==> calltime("scope.Close", a) < clock
 //@     invariant errs_none: ((forall a int :: 0 <= a && a < ncalls("scope.Close") ==> callret("scope.Close", a, 0) == nil)
-//@        && (forall b int :: 0 <= b && b < ncalls("Disposable.Close") ==> callret("Disposable.Close", b, 0) == nil)) ==> len(errs) == 0
+//@        && (forall b int :: 0 <= b && b < ncalls("closeDisposable") ==> callret("closeDisposable", b, 0) == nil)) ==> len(errs) == 0
 //@     invariant errs_some: len(errs) == 0 ==> ((forall a int :: 0 <= a && a < ncalls("scope.Close") ==> callret("scope.Close", a, 0) == nil)
-//@        && (forall b int :: 0 <= b && b < ncalls("Disposable.Close") ==> callret("Disposable.Close", b, 0) == nil))
+//@        && (forall b int :: 0 <= b && b < ncalls("closeDisposable") ==> callret("closeDisposable", b, 0) == nil))
 //@     invariant nonnil: forall j int :: 0 <= j && j < len(disposables) ==> disposables[j] != nil
 //
 // ---------------------------------------------------------------------------------------------
@@ -220,6 +220,15 @@ package godi
 //@     invariant none_skipped_so_far: forall i int :: 0 <= i && i < idx && !outputSkipped(s.rootProvider, descriptor, descriptor.outputs[i]) && descriptor.outputs[i] != nil && descriptor.outputs[i] != descriptor ==>
 //@        (exists c int :: 0 <= c && c < ncalls("scope.cacheInstance") && callarg("scope.cacheInstance", c, 1, "*Descriptor") == descriptor.outputs[i])
 //
+//@ func closeDisposable
+//@   mode conc
+//@   interferes
+//@   nopanic
+//@   requires arg: d != nil
+//@   ensures[C10] closes_exactly_once: ncalls("Disposable.Close") == 1 && callarg("Disposable.Close", 0, 0) == d
+//@   ensures[C12,C15] failure_is_reported: !callpanicked("Disposable.Close", 0) ==> result == callret("Disposable.Close", 0, 0)
+//@   ensures[C12,C15] panic_is_reported_as_a_failure: callpanicked("Disposable.Close", 0) ==> result != nil
+//
 //@ func closeLate
 //@   mode conc
 //@   interferes
@@ -269,20 +278,20 @@ package godi
 //@   at after assign disposables#1 : ghost snap := disposables
 //@   at before call p.scopesMu.Unlock#1 : ghost open := scopes
 //@   at before if#4 : ghost root := p.rootScope
-//@   ensures[C12] loser_is_noop: !won ==> result == nil && ncalls("Disposable.Close") == 0 && ncalls("scope.Close") == 0
+//@   ensures[C12] loser_is_noop: !won ==> result == nil && ncalls("closeDisposable") == 0 && ncalls("scope.Close") == 0
 //@   ensures[C10,C13,C14] winner_runs_every_step: won ==> ncalls("provider.scopesMu.Lock") == 1 && ncalls("provider.disposablesMu.Lock") == 1 && ncalls("provider.singletonKeysMu.Lock") == 1
 //@        && callarg("provider.scopesMu.Lock", 0, 0) == p && callarg("provider.disposablesMu.Lock", 0, 0) == p
 //@   ensures[C13,C10] every_scope_closed: won ==> ncalls("scope.Close") == len(open) + ite(root != nil, 1, 0)
 //@        && (forall i int :: 0 <= i && i < len(open) ==> callarg("scope.Close", i, 0) == open[i])
 //@   ensures[C10,C13] root_scope_closed: won && root != nil ==> callarg("scope.Close", len(open), 0) == root
-//@   ensures[C10,C12] every_singleton_closed_once: won ==> ncalls("Disposable.Close") == len(snap)
-//@        && (forall i int :: 0 <= i && i < len(snap) ==> callarg("Disposable.Close", i, 0) == snap[len(snap) - 1 - i])
+//@   ensures[C10,C12] every_singleton_closed_once: won ==> ncalls("closeDisposable") == len(snap)
+//@        && (forall i int :: 0 <= i && i < len(snap) ==> callarg("closeDisposable", i, 0) == snap[len(snap) - 1 - i])
 //@   ensures[C11] reverse_order: won ==> (forall i int, j int :: 0 <= i && i < j && j < len(snap) ==>
-//@        calltime("Disposable.Close", len(snap) - 1 - j) < calltime("Disposable.Close", len(snap) - 1 - i))
-//@   ensures[C11] scopes_before_singletons: won ==> (forall i int, j int :: 0 <= i && i < ncalls("scope.Close") && 0 <= j && j < ncalls("Disposable.Close") ==>
-//@        calltime("scope.Close", i) < calltime("Disposable.Close", j))
+//@        calltime("closeDisposable", len(snap) - 1 - j) < calltime("closeDisposable", len(snap) - 1 - i))
+//@   ensures[C11] scopes_before_singletons: won ==> (forall i int, j int :: 0 <= i && i < ncalls("scope.Close") && 0 <= j && j < ncalls("closeDisposable") ==>
+//@        calltime("scope.Close", i) < calltime("closeDisposable", j))
 //@   ensures[C12] nil_iff_no_failure: won ==> ((result == nil) <==> ((forall i int :: 0 <= i && i < ncalls("scope.Close") ==> callret("scope.Close", i, 0) == nil)
-//@        && (forall i int :: 0 <= i && i < ncalls("Disposable.Close") ==> callret("Disposable.Close", i, 0) == nil)))
+//@        && (forall i int :: 0 <= i && i < ncalls("closeDisposable") ==> callret("closeDisposable", i, 0) == nil)))
 //@   ensures[C12,C15] error_is_disposal_error: result != nil ==> typeis(result, "*DisposalError") && as(result, "*DisposalError") != nil
 //@   at before assign p.scopes#1 : assert[C13] snapshot_complete: forall c *scope :: (c in p.scopes) ==> occursScope(c, scopes)
 //@   at before call p.scopesMu.Unlock#1 : assert[C13,C14] scopes_detached: p.scopes == nil
@@ -297,15 +306,15 @@ package godi
 //@     invariant errs_some: len(errors) == 0 ==> (forall i int :: 0 <= i && i < idx ==> callret("scope.Close", i, 0) == nil)
 //@   loop 3
 //@     invariant bounds: 0 - 1 <= i && i < len(disposables)
-//@     invariant called: ncalls("Disposable.Close") == len(disposables) - 1 - i
-//@        && (forall j int :: 0 <= j && j < ncalls("Disposable.Close") ==> callarg("Disposable.Close", j, 0) == disposables[len(disposables) - 1 - j])
-//@     invariant after_scopes: forall a int, b int :: 0 <= a && a < ncalls("scope.Close") && 0 <= b && b < ncalls("Disposable.Close") ==>
-//@        calltime("scope.Close", a) < calltime("Disposable.Close", b)
+//@     invariant called: ncalls("closeDisposable") == len(disposables) - 1 - i
+//@        && (forall j int :: 0 <= j && j < ncalls("closeDisposable") ==> callarg("closeDisposable", j, 0) == disposables[len(disposables) - 1 - j])
+//@     invariant after_scopes: forall a int, b int :: 0 <= a && a < ncalls("scope.Close") && 0 <= b && b < ncalls("closeDisposable") ==>
+//@        calltime("scope.Close", a) < calltime("closeDisposable", b)
 //@     invariant scopes_before_now: forall a int :: 0 <= a && a < ncalls("scope.Close") ==> calltime("scope.Close", a) < clock
 //@     invariant errs_none: ((forall a int :: 0 <= a && a < ncalls("scope.Close") ==> callret("scope.Close", a, 0) == nil)
-//@        && (forall b int :: 0 <= b && b < ncalls("Disposable.Close") ==> callret("Disposable.Close", b, 0) == nil)) ==> len(errors) == 0
+//@        && (forall b int :: 0 <= b && b < ncalls("closeDisposable") ==> callret("closeDisposable", b, 0) == nil)) ==> len(errors) == 0
 //@     invariant errs_some: len(errors) == 0 ==> ((forall a int :: 0 <= a && a < ncalls("scope.Close") ==> callret("scope.Close", a, 0) == nil)
-//@        && (forall b int :: 0 <= b && b < ncalls("Disposable.Close") ==> callret("Disposable.Close", b, 0) == nil))
+//@        && (forall b int :: 0 <= b && b < ncalls("closeDisposable") ==> callret("closeDisposable", b, 0) == nil))
 //@     invariant nonnil: forall j int :: 0 <= j && j < len(disposables) ==> disposables[j] != nil
 //
 // ---------------------------------------------------------------------------------------------
